@@ -77,3 +77,8 @@ W unsigned w_arr_eq(int32_t x, int32_t y, int32_t z, int32_t w, unsigned n2) {  
   r |= (d2.as<JsonVariantConst>() == d1.as<JsonVariantConst>()) ? 2u : 0u;
   return r;
 }
+// ---- serializeMsgPack into a bounded buffer (C08)
+W void w_mser_arr(int32_t i, const char* p, size_t n, bool b, char* out, size_t cap, Ser* s) {
+  arena.reset(); JsonDocument doc(&arena); doc.add(i); doc.add(JsonString(p, n, JsonString::Copied)); doc.add(b); doc.add(nullptr);
+  s->n = serializeMsgPack(doc, out, cap); s->measure = measureMsgPack(doc);
+}
